@@ -209,7 +209,8 @@ def run(ctx):
             caught.append([src(e) for e in (n.ast.type.elts if isinstance(n.ast.type, ast.Tuple) else [n.ast.type])])
     ctx.floor('the refusal handlers of the responder negotiation', len(caught), 2, rule='S3')
     need = {'TsUnacceptable', 'NoProposalChosen', 'ChildSaNotFound', 'TemporaryFailure', 'InvalidKePayload'}
-    first = set(caught[0]) if caught else set()
+    missing = {k for k in need if not common.own_notify_for(ctx, creq, k)}
+    first = need - missing
     ctx.check(need <= first, 'S3', 'CHILD_SA refusals %s are converted to their own notify (not deleted, not '
               'generalised)' % sorted(need), key=('S3', 'caught-tuple', ','.join(sorted(need - first))),
               site=ctx.site(creq, creq.node))
